@@ -21,8 +21,9 @@ def _sim():
 class NetConfig:
     """Per-run network behaviour, all driven by its own PRNG (part of the schedule stream)."""
 
-    def __init__(self, rng, chunk='whole', latency='const', base_latency=0.001):
+    def __init__(self, rng, chunk='whole', latency='const', base_latency=0.001, short_send=0.0):
         self.rng = rng
+        self.short_send = short_send    # probability that socket.send() accepts only a prefix
         self.chunk = chunk          # 'whole' | 'few' | 'bytes' | 'crlf'
         self.latency = latency      # 'const' | 'uniform' | 'heavy'
         self.base_latency = base_latency
@@ -285,9 +286,18 @@ class SimSocket:
         return None
 
     def send(self, data, flags=0):
+        """socket.send may accept only part of the buffer (a short write: send buffer nearly
+        full, a socket with a timeout, a signal); how often is a per-run network setting"""
         s = _sim()
         s.yield_('send', self.name)
-        self._send(s, bytes(data))
+        data = bytes(data)
+        cfg = network().cfg
+        if len(data) > 1 and cfg.short_send and cfg.rng.random() < cfg.short_send:
+            k = cfg.rng.randint(1, len(data) - 1)
+            s.count_fault('net.short_send')
+            self._send(s, data[:k])
+            return k
+        self._send(s, data)
         return len(data)
 
     def _send(self, s, data):
